@@ -198,3 +198,25 @@ def samp(rnd, xs, k):
     """sample without replacement, capped at the population size"""
     xs = list(xs)
     return rnd.sample(xs, min(k, len(xs)))
+
+
+def core_tail_kripke(rnd, atoms=('p', 'q')):
+    """a strongly connected core whose states all have self-loops (a fair SCC even for the as-coded
+    get_fair_states) plus tail states: sinks reached from the core (no fair path) or sources into it"""
+    nc = rnd.choice([2, 2, 3])
+    nt = rnd.choice([0, 1, 1, 2])
+    n = nc + nt
+    R = {(i, i) for i in range(nc)} | {(i, (i + 1) % nc) for i in range(nc)}
+    R |= {(a, b) for a in range(nc) for b in range(nc) if rnd.random() < 0.3}
+    for t in range(nc, n):
+        if rnd.random() < 0.6:          # unfair sink below the core
+            R.add((t, t))
+            R.add((rnd.randrange(nc), t))
+            if rnd.random() < 0.3:
+                R.add((rnd.randrange(nc), t))
+        else:                           # source above the core
+            R.add((t, rnd.randrange(nc)))
+            if rnd.random() < 0.4:
+                R.add((t, t))
+    L = [sorted(x for x in atoms if rnd.random() < 0.5) for _ in range(n)]
+    return {'n': n, 'R': [list(e) for e in sorted(R)], 'L': L}, nc
